@@ -606,6 +606,7 @@ func (fx *FnExec) step(st *State, fr *frame, ins ssa.Instruction) bool {
 		fx.execBlock(s2, fr, b.Succs[1], b)
 		return false
 	case *ssa.Return:
+		fx.ghostSets(st, fr, x)
 		st.retSite = x
 		var rs []Term
 		for _, r := range x.Results {
@@ -1268,7 +1269,7 @@ func (fx *FnExec) doRecv(st *State, fr *frame, x *ssa.UnOp) {
 	// receiving empties a one-slot buffer
 	ln := st.ghostLoad("chanlen", "Int", c)
 	st.ghostStore("chanlen", "Int", c, "(ite (and "+ok+" (> "+ln+" 0)) (- "+ln+" 1) "+ln+")")
-	fx.chanMsgTransfer(st, fr, et, v, ok, false, x)
+	fx.chanMsgTransfer(st, fr, et, v, ok, false, x, c, x.X.Type())
 	if x.CommaOk {
 		st.tups[x] = []Term{v, ok}
 	} else {
@@ -1277,13 +1278,13 @@ func (fx *FnExec) doRecv(st *State, fr *frame, x *ssa.UnOp) {
 }
 
 // chanMsgTransfer: ghost resources that travel with channel messages.
-func (fx *FnExec) chanMsgTransfer(st *State, fr *frame, et types.Type, v Term, cond Term, isSend bool, site ssa.Instruction) {
+func (fx *FnExec) chanMsgTransfer(st *State, fr *frame, et types.Type, v Term, cond Term, isSend bool, site ssa.Instruction, ch Term, cht types.Type) {
 	tn := typeName(et)
 	for _, cm := range fx.P.Specs.ChanMsgs {
 		if cm.TypeName != tn {
 			continue
 		}
-		env := &evalEnv{fx: fx, st: st, vars: map[string]cval{"msg": {t: v, typ: et, sort: fx.sortOf(et)}}, pkg: fx.P.TypesPkgs[cm.Pkg]}
+		env := &evalEnv{fx: fx, st: st, vars: map[string]cval{"msg": {t: v, typ: et, sort: fx.sortOf(et)}, "ch": {t: ch, typ: cht, sort: "Int"}}, pkg: fx.P.TypesPkgs[cm.Pkg]}
 		if cm.Inv != nil {
 			iv := env.eval(cm.Inv)
 			if isSend {
@@ -1310,7 +1311,7 @@ func (fx *FnExec) doSend(st *State, fr *frame, x *ssa.Send) {
 	name := fx.ord(fr.fn, x, "send")
 	fx.emit(st, fr, "chan-open", name, "(not "+st.ghostLoad("chanclosed", "Bool", c)+")", nil, "")
 	fx.chanSendEffect(st, c, v, fx.sortOf(x.X.Type()), "true")
-	fx.chanMsgTransfer(st, fr, x.X.Type(), v, "true", true, x)
+	fx.chanMsgTransfer(st, fr, x.X.Type(), v, "true", true, x, c, x.Chan.Type())
 }
 
 func (fx *FnExec) chanSendEffect(st *State, c, v Term, es string, cond Term) {
